@@ -12,6 +12,15 @@ import Tickit.Model.RBFlush
     `timedout`, `got_key`), with handlers that drop windows and the terminal itself.  What libtermkey makes of the
     bytes is not modelled: input is a list of tokens whose decoding is fixed (and trusted) on both sides.
 
+  * the toplevel instance (`src/tickit.c`: `tickit_build` for a given terminal, `tickit_get_rootwin`,
+    `tickit_get_term`, `tickit_ref/unref` → `tickit_destroy`, `tickit_watch_later`, `tickit_watch_timer_after_msec`,
+    `tickit_watch_cancel`, `tickit_tick` with the default event loop: `tickit_evloop_invoke_timers`, the watch on the
+    terminal's input and `on_term_timeout`).  The application keeps its own reference to the root window and to the
+    terminal it obtains from the instance.  The deferred `_flush_fn` calls the root window queues on the instance
+    (`_request_later_processing`) are not tracked: the harness flushes the root window before every tick, and
+    handlers in histories with an instance make no restacking requests, so that those calls find nothing to
+    reorder (the model would be wrong about the window order otherwise).
+
   The operations of `Life.Op` keep their meaning (`Life.step`); this layer adds operations and keeps the state they
   need next to the `St` of the lower layers.  No theorem of Props/C08 is about this layer: it is tied to the code by
   the correspondence check only.
@@ -53,6 +62,30 @@ inductive Tok where
   | press (line col : Int) | drag (line col : Int) | release (line col : Int)
 deriving Repr, Inhabited
 
+/-- Configuration of this layer: the repairs of the lower layers, and whether `tickit_destroy` makes a root window
+    that outlives the instance forget it (fixes/C08_rootwin_outlives_tickit.patch). -/
+structure TCfg where
+  base : Cfg
+  rootForgetsTickit : Bool := false
+deriving Repr, Inhabited
+
+/-- An entry of `t->laters` / `t->timers`: a watch of the application (behaviour record `idx`), or the instance's own
+    timer for the terminal's input timeout (`on_term_timeout`). -/
+inductive WItem where
+  | app (idx : Nat) (acts : List TAct)
+  | termTimeout
+deriving Repr, Inhabited
+
+/-- `struct Tickit`. -/
+structure Inst where
+  refcount : Int := 1
+  appRefs : Nat := 1
+  freed : Bool := false
+  laters : List WItem := []
+  timers : List (Int × WItem) := []      -- ordered by time, later insertions after equal times
+  nW : Nat := 0                          -- behaviour records handed out
+deriving Repr, Inhabited
+
 /-- The operations of the `life` engine: those of `Life.Op` and the ones added by this layer. -/
 inductive XOp where
   | base (op : Op)
@@ -65,11 +98,18 @@ inductive XOp where
   | twait (toks : List Tok) (tv : Bool)                  -- bytes into the pipe, tickit_term_input_wait_msec(0) / _wait_tv({0,0})
   | tcheck                                               -- tickit_term_input_check_timeout_msec
   | tick (ms : Int)                                      -- the clock (gettimeofday) advances
+  | newtop (lines cols : Int)                            -- terminal (pipe), tickit_build, own references to root window and terminal
+  | iref | iunref                                        -- tickit_ref / tickit_unref
+  | ilater (acts : List TAct)                            -- tickit_watch_later
+  | itimer (ms : Int) (acts : List TAct)                 -- tickit_watch_timer_after_msec
+  | icancel (k : Nat)                                    -- tickit_watch_cancel of the k-th watch
+  | itick (toks : List Tok)                              -- bytes into the pipe, flush, tickit_tick(NOHANG|NOSETUP)
 deriving Repr, Inhabited
 
 def XOp.isNew : XOp → Bool
   | .base (.newTerm ..) => true
   | .newin .. => true
+  | .newtop .. => true
   | _ => false
 
 /-- The operation the specification looks at: `end` is special, the rest is judged alike. -/
@@ -97,6 +137,12 @@ structure Top where
   now : Int := 0
   /-- `tt->mouse_buttons_held` has the bit of button 1 -/
   held : Bool := false
+  inst : Option Inst := none
+  /-- `tickit_destroy` has torn the terminal down (`tickit_term_teardown`: `termkey_stop`); nothing restarts libtermkey,
+      which from then on reports no key and reads nothing -/
+  inputDead : Bool := false
+  /-- the root window has outlived the instance and still points to it (`root->tickit`, uncounted) -/
+  dangling : Bool := false
 
 /-- Operations that never reach the terminal driver. -/
 def Op.leavesScreen : Op → Bool
@@ -193,6 +239,7 @@ def decode : Bool → Bool → List Tok → List (Ev × Mouse) → Option (List 
 
 /-- `get_keys` after `toks` have reached libtermkey's buffer. -/
 def getKeys (cfg : Cfg) (top : Top) (toks : List Tok) : Option (Out Top) :=
+  if top.inputDead then some (pure { top with timeoutAt := none }) else
   match decode top.pendingEsc top.held toks [] with
   | none => none
   | some (evs, pending, held) => some (do
@@ -202,7 +249,7 @@ def getKeys (cfg : Cfg) (top : Top) (toks : List Tok) : Option (Out Top) :=
 
 /-- `timedout`: `termkey_getkey_force` turns a pending ESC into the key Escape. -/
 def timedOut (cfg : Cfg) (top : Top) : Out Top := do
-  let top ← if top.pendingEsc then runTermEvent cfg { top with pendingEsc := false } .key default else pure top
+  let top ← if top.pendingEsc && !top.inputDead then runTermEvent cfg { top with pendingEsc := false } .key default else pure top
   pure { top with timeoutAt := none }
 
 /-- `get_timeout`. -/
@@ -224,7 +271,54 @@ def newTop (cfg : Cfg) (lines cols : Int) (mock hasFd : Bool) : Out (Top × Stri
   pure ({ st := st, mock := mock, hasFd := hasFd, screen := if mock then some (RBFlush.MockTerm.new lines cols) else none,
           tbinds := [⟨1, .rootResize, none, false, []⟩, ⟨2, .rootKey, some .key, false, []⟩, ⟨3, .rootMouse, some .mouse, false, []⟩] }, r)
 
-def xstep (cfg : Cfg) (top : Top) : XOp → Out (Top × String)
+/-! ## the toplevel instance -/
+
+def instHeld (top : Top) : Bool :=
+  match top.inst with
+  | some i => !i.freed && i.appRefs > 0
+  | none => false
+
+def setInst (top : Top) (f : Inst → Inst) : Top := { top with inst := top.inst.map f }
+
+/-- `tickit_destroy`: the root window and the terminal are released first, then the watches. -/
+def instDestroy (tc : TCfg) (top : Top) : Out Top := do
+  let top ← if rootAlive top.st then do
+      let st ← unrefW tc.base top.st 0
+      pure ({ top with st := st, dangling := rootAlive st && !tc.rootForgetsTickit }).sync
+    else pure top
+  let top ← termUnrefI top        -- tickit_term_teardown, tickit_term_unref
+  let top := { top with inputDead := !top.st.term.freed }
+  pure (setInst top (fun i => { i with freed := true, refcount := 0, laters := [], timers := [] }))
+
+def instUnref (tc : TCfg) (top : Top) : Out Top :=
+  match top.inst with
+  | none => pure top
+  | some i =>
+    let top := setInst top (fun i => { i with appRefs := i.appRefs - 1, refcount := i.refcount - 1 })
+    if i.refcount - 1 = 0 then instDestroy tc top else pure top
+
+/-- A watch of the application fires. -/
+def runWatch (cfg : Cfg) (top : Top) (tag : String) (acts : List TAct) : Out Top :=
+  acts.foldlM (tAct cfg) { top with st := { top.st with log := top.st.log ++ [tag] } }
+
+/-- `on_term_timeout`: `tickit_term_input_check_timeout_msec`, and a timer for what is left. -/
+def onTermTimeout (cfg : Cfg) (top : Top) : Out Top := do
+  let msec := getTimeout top
+  let top ← if msec = 0 then withTermRef top (timedOut cfg) else pure top
+  let msec := if msec = 0 then -1 else msec
+  if msec > -1 then
+    let at_ := top.now + msec
+    pure (setInst top (fun i =>
+      { i with timers := i.timers.takeWhile (fun e => e.1 ≤ at_) ++ [(at_, .termTimeout)] ++ i.timers.dropWhile (fun e => e.1 ≤ at_) }))
+  else pure top
+
+def fireItem (cfg : Cfg) (timer : Bool) (top : Top) : WItem → Out Top
+  | .app idx acts => runWatch cfg top (if timer then s!"M{idx}" else s!"L{idx}") acts
+  | .termTimeout => onTermTimeout cfg top
+
+def xstep (tc : TCfg) (top : Top) : XOp → Out (Top × String) :=
+  let cfg := tc.base
+  fun xop => match xop with
   | .base op =>
     match op with
     | .newTerm lines cols mock => newTop cfg lines cols mock false
@@ -259,7 +353,20 @@ def xstep (cfg : Cfg) (top : Top) : XOp → Out (Top × String)
       else do
         let (st, r) ← step cfg top.st op
         pure (({ top with st := st }).sync, r)
+    | .«end» => do
+      let (st, r) ← step cfg top.st op
+      let top := ({ top with st := st }).sync
+      -- the references to the toplevel instance go last
+      let n := match top.inst with | some i => i.appRefs | none => 0
+      let top ← (List.range n).foldlM (fun top _ => if instHeld top then instUnref tc top else pure top) top
+      pure (top, r)
     | _ => do
+      -- a root window that has outlived its instance: `_request_later_processing` calls `tickit_watch_later` on the
+      -- freed instance (certain for a restacking request that opens the queue; other operations are not predicted)
+      let crash := match op with
+        | .act (.restack c w) => top.dangling && usableW top.st w && isRestack c && top.st.tree.root.changes.isEmpty
+        | _ => false
+      if crash then .ub .mem "root window uses the toplevel instance it has outlived" else
       let (st, r) ← step cfg top.st op
       let screen := if top.printed && !op.leavesScreen then none else top.screen
       pure (({ top with st := st, screen := screen }).sync, r)
@@ -314,6 +421,63 @@ def xstep (cfg : Cfg) (top : Top) : XOp → Out (Top × String)
         pure (top, "ret=-1")
       else pure (top, s!"ret={msec}")
   | .tick ms => pure ({ top with now := top.now + ms }, "ok")
+  | .newtop lines cols => do
+    let (top, r) ← newTop cfg lines cols false true
+    -- the instance holds the creation references of the terminal and of the root window; the application's are its own
+    let w ← getW top.st 0
+    let st := setW top.st 0 { w with refcount := w.refcount + 1 }
+    let st := { st with term := { st.term with refcount := st.term.refcount + 1 } }
+    pure ({ top with st := st, inst := some {} }, r)
+  | .iref =>
+    if !instHeld top then pure (top, "skip")
+    else pure (setInst top (fun i => { i with appRefs := i.appRefs + 1, refcount := i.refcount + 1 }), "ok")
+  | .iunref => if !instHeld top then pure (top, "skip") else okT (instUnref tc top)
+  | .ilater acts =>
+    if !instHeld top then pure (top, "skip")
+    else pure (setInst top (fun i => { i with laters := i.laters ++ [.app i.nW acts], nW := i.nW + 1 }), "ok")
+  | .itimer ms acts =>
+    if !instHeld top then pure (top, "skip")
+    else
+      let at_ := top.now + ms
+      pure (setInst top (fun i => { i with
+        timers := i.timers.takeWhile (fun e => e.1 ≤ at_) ++ [(at_, .app i.nW acts)] ++ i.timers.dropWhile (fun e => e.1 ≤ at_),
+        nW := i.nW + 1 }), "ok")
+  | .icancel k =>
+    let isK : WItem → Bool
+      | .app idx _ => idx = k
+      | .termTimeout => false
+    let pending := match top.inst with
+      | some i => i.laters.any isK || i.timers.any (fun e => isK e.2)
+      | none => false
+    if !instHeld top || !pending then pure (top, "skip")
+    else pure (setInst top (fun i => { i with laters := i.laters.filter (fun x => !isK x), timers := i.timers.filter (fun e => !isK e.2) }), "ok")
+  | .itick toks =>
+    if !instHeld top then pure (top, "skip")
+    else match decode top.pendingEsc top.held toks [] with
+      | none => pure (top, "unsupported-input")
+      | some _ => okT (do
+        -- tickit_window_flush(tickit_get_rootwin(t))
+        let top ← if rootAlive top.st then do
+            let st ← liftT top.st (flushT top.st.tree)
+            pure { top with st := st }
+          else pure top
+        -- tickit_evloop_invoke_timers: the later queue is detached, the due timers run, then the detached queue
+        let i := top.inst.getD {}
+        let later := i.laters
+        let due := i.timers.takeWhile (fun e => e.1 ≤ top.now)
+        let now := top.now
+        let top := setInst top (fun i => { i with laters := [], timers := i.timers.dropWhile (fun e => e.1 ≤ now) })
+        let top ← due.foldlM (fun top e => fireItem cfg true top e.2) top
+        let top ← later.foldlM (fireItem cfg false) top
+        if toks.isEmpty then pure top
+        else do
+          -- the watch on the terminal's input: on_term_readable = tickit_term_input_readable + on_term_timeout
+          let top ← match getKeys cfg (termRefI top) toks with
+            | some r => do
+              let top ← r
+              termUnrefI top
+            | none => pure top
+          onTermTimeout cfg top)
 
 end Life
 end Tickit
